@@ -173,14 +173,23 @@ func init() {
 		}
 		conn.reset()
 		second := make(chan error, 1)
+		e.at("Subscribe after the counter wrapped")
 		go func() { second <- c.Subscribe(nil, "second") }()
 		select {
 		case err := <-second:
 			if err != nil {
 				e.violate("C11", "response-to-other-caller", "the Subscribe issued after the counter wrapped returned %v; the broker granted it", err)
 			}
-		case <-time.After(5 * time.Second):
+		case <-time.After(20 * time.Second):
 			e.violate("C11", "call-never-returns#sub", "the Subscribe issued after the counter wrapped does not return although the broker answered it")
+			sent := false
+			pk, _ := conn.packets()
+			for _, p := range pk {
+				sent = sent || p.Type == tSUBSCRIBE
+			}
+			if !sent {
+				e.violate("C17", "request-blocked-without-identifier", "with identifier %#04x pending and the counter back at its number, the next Subscribe is neither sent under a fresh identifier nor refused: it blocks", held)
+			}
 		}
 		pk, _ := conn.packets()
 		for _, p := range pk {
@@ -190,6 +199,7 @@ func init() {
 			}
 		}
 		// now the broker fails the held one: its caller gets its own answer
+		e.at("SUBACK for the held Subscribe")
 		conn.mu.Lock()
 		conn.in = append(conn.in, encSuback(held, []byte{0x80})...)
 		conn.cond.Broadcast()
@@ -200,7 +210,7 @@ func init() {
 			if !errors.As(err, &se) || len(se) != 1 || se[0] != "hold/me" {
 				e.violate("C11", "response-to-other-caller", "the held Subscribe returned %v, want SubscribeError[hold/me]", err)
 			}
-		case <-time.After(5 * time.Second):
+		case <-time.After(20 * time.Second):
 			e.violate("C11", "call-never-returns#sub", "the held Subscribe never returns although the broker answered its identifier %#04x", held)
 		}
 		e.distinct["idwrap"] = true
@@ -279,7 +289,7 @@ func init() {
 			if mqtt.IsDeny(err) {
 				e.violate("C09", "valid-denied#slot-limit", "a valid Subscribe beyond the slot limit was refused as IsDeny: %v", err)
 			}
-		case <-time.After(5 * time.Second):
+		case <-time.After(20 * time.Second):
 			e.violate("C17", "slot-limit-blocks", "request %d blocks instead of returning ErrMax", slots+1)
 		}
 		e.evals++
